@@ -24,24 +24,30 @@ using namespace embedded_pairing::core;
 using namespace embedded_pairing::bls12_381;
 
 #if !defined(DISABLE_ASM) && defined(__x86_64__)
+/* The dispatch pointers and the two sets of routines are reached through weak references to their linker names, not through the
+ * library's declarations: a library that organises its run-time dispatch differently (a const table, no pointers at all) still links,
+ * and the harness then reports that the back end cannot be switched instead of failing to build. */
 extern "C" {
-    void embedded_pairing_core_arch_x86_64_fpbase_384_montgomery_reduce(void* res, void* a, const void* p, uint64_t inv_word);
-    void embedded_pairing_core_arch_x86_64_bmi2_adx_fpbase_384_montgomery_reduce(void* res, void* a, const void* p, uint64_t inv_word);
-    void embedded_pairing_core_arch_x86_64_bigint_768_multiply(void* res, const void* a, const void* b);
-    void embedded_pairing_core_arch_x86_64_bmi2_adx_bigint_768_multiply(void* res, const void* a, const void* b);
-    void embedded_pairing_core_arch_x86_64_bigint_768_square(void* res, const void* a);
-    void embedded_pairing_core_arch_x86_64_bmi2_adx_bigint_768_square(void* res, const void* a);
+    typedef void (*vk_fn_t)(void);
+    extern vk_fn_t vk_rt_reduce __asm__("_ZN16embedded_pairing4core36runtime_fpbase_384_montgomery_reduceE") __attribute__((weak));
+    extern vk_fn_t vk_rt_multiply __asm__("_ZN16embedded_pairing4core27runtime_bigint_768_multiplyE") __attribute__((weak));
+    extern vk_fn_t vk_rt_square __asm__("_ZN16embedded_pairing4core25runtime_bigint_768_squareE") __attribute__((weak));
+    void vk_base_reduce(void) __asm__("embedded_pairing_core_arch_x86_64_fpbase_384_montgomery_reduce") __attribute__((weak));
+    void vk_fast_reduce(void) __asm__("embedded_pairing_core_arch_x86_64_bmi2_adx_fpbase_384_montgomery_reduce") __attribute__((weak));
+    void vk_base_multiply(void) __asm__("embedded_pairing_core_arch_x86_64_bigint_768_multiply") __attribute__((weak));
+    void vk_fast_multiply(void) __asm__("embedded_pairing_core_arch_x86_64_bmi2_adx_bigint_768_multiply") __attribute__((weak));
+    void vk_base_square(void) __asm__("embedded_pairing_core_arch_x86_64_bigint_768_square") __attribute__((weak));
+    void vk_fast_square(void) __asm__("embedded_pairing_core_arch_x86_64_bmi2_adx_bigint_768_square") __attribute__((weak));
+    bool vk_probe(void) __asm__("embedded_pairing_core_arch_x86_64_cpu_supports_bmi2_adx") __attribute__((weak));
+}
+static bool vk_switchable(void) {
+    return &vk_rt_reduce && &vk_rt_multiply && &vk_rt_square && vk_base_reduce && vk_fast_reduce && vk_base_multiply && vk_fast_multiply && vk_base_square && vk_fast_square;
 }
 static void set_dispatch(int mode) {
-    if (mode == 0) {
-        runtime_fpbase_384_montgomery_reduce = embedded_pairing_core_arch_x86_64_fpbase_384_montgomery_reduce;
-        runtime_bigint_768_multiply = embedded_pairing_core_arch_x86_64_bigint_768_multiply;
-        runtime_bigint_768_square = embedded_pairing_core_arch_x86_64_bigint_768_square;
-    } else if (mode == 1) {
-        runtime_fpbase_384_montgomery_reduce = embedded_pairing_core_arch_x86_64_bmi2_adx_fpbase_384_montgomery_reduce;
-        runtime_bigint_768_multiply = embedded_pairing_core_arch_x86_64_bmi2_adx_bigint_768_multiply;
-        runtime_bigint_768_square = embedded_pairing_core_arch_x86_64_bmi2_adx_bigint_768_square;
-    }
+    if (mode < 0) return;
+    if (!vk_switchable()) { fprintf(stderr, "NOTE nodispatch: the back end cannot be switched from outside; running with the library's own choice\n"); return; }
+    if (mode == 0) { vk_rt_reduce = vk_base_reduce; vk_rt_multiply = vk_base_multiply; vk_rt_square = vk_base_square; }
+    else if (mode == 1) { vk_rt_reduce = vk_fast_reduce; vk_rt_multiply = vk_fast_multiply; vk_rt_square = vk_fast_square; }
 }
 #else
 static void set_dispatch(int) {}
